@@ -106,6 +106,17 @@ fn decode_host(host: &str) -> Option<Cow<str>> {
     }
 }
 
+/// Whether `rp_id` is equal to `domain` or is a suffix of it which starts at a label boundary.
+///
+/// A plain string suffix is not enough: `evilexample.com` ends with `example.com` but is
+/// an unrelated domain. An `rp_id` which itself starts with a `.` is let through here so that
+/// it gets rejected as an invalid RP ID by the public suffix check that follows.
+fn is_domain_suffix_or_equal(domain: &str, rp_id: &str) -> bool {
+    domain.strip_suffix(rp_id).is_some_and(|prefix| {
+        prefix.is_empty() || prefix.ends_with('.') || rp_id.starts_with('.')
+    })
+}
+
 /// The origin of a WebAuthn request.
 pub enum Origin<'a> {
     /// A Url, meant for a request in the web browser.
@@ -536,7 +547,7 @@ where
         let mut effective_domain = origin.domain().ok_or(WebauthnError::OriginMissingDomain)?;
 
         if let Some(rp_id) = rp_id {
-            if !effective_domain.ends_with(rp_id) {
+            if !is_domain_suffix_or_equal(effective_domain, rp_id) {
                 return Err(WebauthnError::OriginRpMissmatch);
             }
 
@@ -608,7 +619,7 @@ where
 
         if let Some(rp_id) = rp_id {
             // subset from assert_web_rp_id
-            if !effective_rp_id.ends_with(rp_id) {
+            if !is_domain_suffix_or_equal(effective_rp_id, rp_id) {
                 return Err(WebauthnError::OriginRpMissmatch);
             }
             effective_rp_id = rp_id;
